@@ -1,12 +1,18 @@
-"""C02 — bign: signatures, key pairs, DH and key transport are sound and complete.
+"""C02 — bign: signatures, key pairs, DH, key transport and identity-based signatures are sound and complete.
  (0) ref/Bign.tla (STB 34.101.45 transcribed from the standard: rejection sampling of d and k from the caller's
-     generator tape, alg. 7.1.3 / 7.1.4 / 6.3.3 / 7.2.3 / 7.2.4) is anchored by the appendix tables G.1 - G.7 evaluated
-     by TLC (spec/ref/BignVectors.tla).  A failure there is a specification error (inconclusive).
+     generator tape, alg. 7.1.3 / 7.1.4 / 6.3.3 / 7.2.3 / 7.2.4, appendix B.2.3 / B.2.4 / B.2.5) is anchored by the
+     appendix tables G.1 - G.10 evaluated by TLC (spec/ref/BignVectors.tla).  A failure there is a specification error
+     (inconclusive).
  (1) record direction: harness/drv_bign.c runs the enumerated classes (d x H x nonce / tape classes, verifier and
      token alterations CLASSIFIED BY THE SPECIFICATION, key transport, DH) in the `rel` AND the assert-enabled `dbg`
      build, each case in its own process; TLC (spec/trace/Trace_Bign.tla) judges every distinct line: error class,
      ranges, the signing equation for the k the tape defines, sign -> verify, gen -> val, wrap -> unwrap, DH symmetry;
      lines with lvl = 1 are recomputed in full (scalar multiplications over BigNat).
+     Appendix B is recorded as CHAINS: trusted party's key pair -> bignSign of the identifier hash (nonce tape) ->
+     bignIdExtract -> bignIdSign / bignIdSign2 -> bignIdVerify, with the trusted party's key CONSTRUCTED (test-input
+     construction, driver) so that the extracted identity key is the boundary value e = 0, 1, q-1 on all three levels,
+     plus 22 extractor and 28 verifier alterations and the e x H x nonce classes of the id-signing functions.  The
+     verdicts are TLC's: IdExtract / IdSign / IdVerify of ref/Bign.tla on the logged inputs.
  (2) replay direction: TLC generates cases with predicted outputs (spec/gen/Gen_Bign.tla), the harness executes them.
  Observations (coordinator's ruling: outside the listed properties, recorded in the evidence, not violations): for a
  public key whose coordinates are in the field but OFF the curve bignVerify answers ERR_BAD_SIG (rejected; bign.h names
@@ -31,7 +37,8 @@ def key_of(row):
     """Structural class of a line: operation, level and the enumerated class; seeded data never enters the key."""
     op, l, cls = row["op"], row.get("l"), row.get("cls", "")
     fn = {"keygen": "bignKeypairGen", "pubcalc": "bignPubkeyCalc", "sign": "bignSign", "sign2": "bignSign2", "verify": "bignVerify",
-          "wrap": "bignKeyWrap", "unwrap": "bignKeyUnwrap", "dh": "bignDH"}.get(op if op != "abort" else row.get("in"), op)
+          "wrap": "bignKeyWrap", "unwrap": "bignKeyUnwrap", "dh": "bignDH", "idextract": "bignIdExtract", "idsign": "bignIdSign",
+          "idsign2": "bignIdSign2", "idverify": "bignIdVerify"}.get(op if op != "abort" else row.get("in"), op)
     if fn == "bignKeypairGen" and "tape" in row:
         no = l // 4
         smp = [num(row["tape"][i:i + no]) for i in range(0, len(row["tape"]) - no + 1, no)]
@@ -55,8 +62,18 @@ def hx(a):
     return "x" + bytes(a).hex()
 
 
-def anchors():
-    return vlib.tlc("BignVectors", workers=8, timeout=2400, quiet=True)
+def anchors(tier):
+    return vlib.tlc("BignVectors", env={"VEC_TIER": tier}, workers=8, timeout=2400 if tier == "quick" else 7200, quiet=True)
+
+
+# rough cost of a line for the specification (units of one long scalar multiplication): the costly lines go first, so
+# that TLC's workers finish together (the order of the lines has no meaning)
+COST = {"idverify": 2.0, "idextract": 1.6, "verify": 1.5, "wrap": 2.0, "unwrap": 1.3, "dh": 1.0, "sign2": 1.0, "idsign2": 1.0,
+        "sign": 0.5, "idsign": 0.3, "keygen": 0.5, "pubcalc": 0.5}
+
+
+def cost_of(row):
+    return (COST.get(row["op"], 0.1) if row.get("lvl") == 1 else 0.0) * {128: 1, 192: 3.4, 256: 8}.get(row.get("l"), 1)
 
 
 def gen_cases(ctx, tier):
@@ -89,21 +106,23 @@ def run(ctx):
     tier = "quick" if ctx.quick else "thorough"
     t0 = time.time()
     drvs = {b: vlib.harness("drv_bign", ["drv_bign.c"], b) for b in ("rel", "dbg")}
-    res = vlib.parallel([anchors, lambda: gen_cases(ctx, tier), lambda: record_builds(ctx, tier, drvs)], n=3)
-    ra, (rg, cases), rec = res
-    # ---- (0)
-    abad = re.findall(r'<<\s*"@BAD",\s*(\d+)', ra.out)
-    ev.cov["appendix_vectors_evaluated"] = max(0, (ra.distinct - 1) // 2)
-    if ra.rc != 0 or abad or ra.distinct < 3:
-        ctx.note_inconclusive("ref/Bign.tla fails its appendix vectors %s (rc=%s): specification error" % (abad, ra.rc))
-        return
-    tlc_states = ra.distinct + rg.distinct
-    vlib.log("[C02] anchors ok (%.0fs), %d generated cases (%.0fs)" % (ra.wall, len(cases), rg.wall))
+    # the anchors and the case generation run beside the record direction (all of them are TLC evaluations competing for
+    # the same cores); nothing is REPORTED before the anchors have passed
+    import concurrent.futures as cf
+    pool = cf.ThreadPoolExecutor(max_workers=2)
+    fa = pool.submit(anchors, tier)
+    fg = pool.submit(gen_cases, ctx, tier)
+    rec = record_builds(ctx, tier, drvs)
+    pending = []          # violations found before the anchors' verdict is known
+
+    def violation(*a):
+        pending.append(a)
+    tlc_states = 0
     # ---- (1) record: distinct lines of both builds are judged once
     lines, owners, aborts = [], {}, []
     for b, (rc, err, rows) in rec.items():
         if rc != 0:
-            ctx.violation("crash:drv_bign:%s" % b, "drv_bign record stopped (rc=%d, %s build): %s" % (rc, b, err[-1200:]), err[-4000:])
+            violation("crash:drv_bign:%s" % b, "drv_bign record stopped (rc=%d, %s build): %s" % (rc, b, err[-1200:]), err[-4000:])
         for row in rows:
             if row["op"] == "abort":
                 aborts.append((b, row))
@@ -119,9 +138,10 @@ def run(ctx):
         aseen[k] = aseen.get(k, 0) + 1
         if aseen[k] > 1:
             continue
-        ctx.violation(k, "%s build: the library ABORTED on an admissible input (%s, class %s, level %s, signal %s): an internal precondition "
-                      "is violated by the caller-visible contract" % (b, row.get("in"), row.get("cls"), row.get("l"), row.get("signal")),
-                      {"build": b, "line": row, "how": "VERIF_SEED=%d drv_bign(%s) record %s, case idx %s" % (ctx.seed, b, tier, row.get("idx"))})
+        violation(k, "%s build: the library ABORTED on an admissible input (%s, class %s, level %s, signal %s): an internal precondition "
+                  "is violated by the caller-visible contract" % (b, row.get("in"), row.get("cls"), row.get("l"), row.get("signal")),
+                  {"build": b, "line": row, "how": "VERIF_SEED=%d drv_bign(%s) record %s, case idx %s" % (ctx.seed, b, tier, row.get("idx"))})
+    lines.sort(key=cost_of, reverse=True)        # stable: equal costs keep the order of the enumeration
     path = ctx.path("lines.ndjson")
     vlib.write_ndjson(path, lines)
     n, bad, r = vlib.validate_lines(ctx, "Trace_Bign", path, timeout=3000 if ctx.quick else 20000)
@@ -134,10 +154,11 @@ def run(ctx):
         k = key_of(row)
         seen[k] = seen.get(k, 0) + 1
         if seen[k] == 1:
-            ctx.violation(k, "%s (builds %s): the recorded call differs from STB 34.101.45 as transcribed in ref/Bign.tla (class %s, l=%s, rc=%s%s)"
-                          % (row["op"], owners[json.dumps(row, sort_keys=True)], row.get("cls"), row.get("l"), row.get("rc", row.get("ra")),
-                             ", verify after sign: %s" % row["vrc"] if "vrc" in row else ", KeypairVal: %s" % row["val"] if "val" in row else ""),
-                          {"line": row, "how": "re-run ./check C02; the line is judged by spec/trace/Trace_Bign.tla"})
+            violation(k, "%s (builds %s): the recorded call differs from STB 34.101.45 as transcribed in ref/Bign.tla (class %s, l=%s, rc=%s%s%s)"
+                      % (row["op"], owners[json.dumps(row, sort_keys=True)], row.get("cls"), row.get("l"), row.get("rc", row.get("ra")),
+                         ", identity key e = %d" % num(row["e"]) if row["op"] in ("idsign", "idsign2") and num(row["e"]) < 2 else "",
+                         ", verify after sign: %s" % row["vrc"] if "vrc" in row else ", KeypairVal: %s" % row["val"] if "val" in row else ""),
+                      {"line": row, "how": "re-run ./check C02; the line is judged by spec/trace/Trace_Bign.tla"})
     ev.cov["disagreeing_lines_by_key"] = seen
     obs = {}
     for row in lines:
@@ -145,6 +166,8 @@ def run(ctx):
             obs["bignKeyWrap: recipient key in the field but off the curve (bign.h: \\expect{ERR_BAD_PUBKEY})"] = row["rc"]
         if row["op"] == "verify" and row.get("cls", "").startswith(("alt=Q.y^1", "alt=Q:=(0,0)")):
             obs["bignVerify: public key in the field but off the curve, class %s (bign.h: \\expect{ERR_BAD_PUBKEY})" % row["cls"]] = row["rc"]
+        if row["op"] in ("idextract", "idverify") and row.get("cls", "").startswith(("alt=Q.y^1", "alt=Q:=(0,0)")):
+            obs["%s: trusted party's key in the field but off the curve, class %s (bign.h: \\expect{ERR_BAD_PUBKEY})" % (key_of(row).split(":")[0], row["cls"])] = row["rc"]
     ev.cov["observations"] = obs
     ev.cov["aborts_by_key"] = aseen
     vlib.log("[C02] %d distinct lines judged, %d disagree, %d aborts (%.0fs)" % (n, len(bad), len(aborts), time.time() - t0))
@@ -166,6 +189,10 @@ def run(ctx):
             m["used"] += 1
         elif row["op"] == "dh":
             m["kB"][0] ^= 1
+        elif row["op"] == "idextract":
+            m["e"][0] ^= 1                       # the extracted key is not (S1 + H0) mod q
+        elif row["op"] in ("idsign", "idsign2"):
+            m["sig"][-1] ^= 1                    # S1 violates the equation of B.2.4
         elif row["op"] == "verify" and "s1:=q" not in row["cls"]:
             continue
         elif row["op"] == "unwrap":
@@ -180,12 +207,42 @@ def run(ctx):
     for row in lines:
         if row["op"] == "unwrap" and "len=min-1" in row["cls"]:
             m = json.loads(json.dumps(row)); m["rc"] = "OK"; mut.append(m); break
+    # appendix B: an extracted public key moved off the curve, the legitimate key e = 0 "refused", a dropped input-integrity
+    # flag, verdicts of the verifier / extractor flipped on lines the specification decides without a long scalar
+    for row in lines:
+        if row["op"] == "idextract" and row["rc"] == "OK":
+            m = json.loads(json.dumps(row)); m["lvl"] = 0; m["R"][-1] ^= 1; mut.append(m)
+            m = json.loads(json.dumps(row)); m["lvl"] = 0; m["inmod"] = 1; mut.append(m); break
+    for row in lines:
+        if row["op"] == "idsign" and row["rc"] == "OK" and num(row["e"]) == 0:
+            m = json.loads(json.dumps(row)); m["lvl"] = 0; m["rc"] = "BAD_PRIVKEY"; m["sig"] = []; mut.append(m); break
+    for op, cls in (("idverify", "alt=s1:=q"), ("idverify", "alt=R.y^1"), ("idextract", "alt=s1+=q")):
+        for row in lines:
+            if row["op"] == op and row.get("cls", "").startswith(cls) and row["rc"] != "OK":
+                m = json.loads(json.dumps(row)); m["rc"] = "OK"; mut.append(m); break
+    # ... and one verdict that needs the point V of B.2.5: the cheapest genuine line recomputed in full, answered BAD_SIG
+    gen = [row for row in lines if row["op"] == "idverify" and row.get("lvl") == 1 and row["rc"] == "OK" and row.get("l") == 128 and "e=0" in row.get("cls", "")]
+    if gen:
+        m = json.loads(json.dumps(gen[0])); m["rc"] = "BAD_SIG"; mut.append(m)
     n2, bad2, r2 = vlib.validate_lines(ctx, "Trace_Bign", mut, timeout=900, workers=4)
     tlc_states += r2.distinct
     ev.cov["selftest_corrupted_lines"] = len(mut)
     ev.cov["selftest_rejected"] = len(bad2)
     if n2 == len(mut) and len(bad2) != len(mut):
         ctx.note_inconclusive("binding self-test: %d of %d corrupted lines were not rejected" % (len(mut) - len(bad2), len(mut)))
+    # ---- (0) the anchors' verdict; only now the findings are reported
+    ra = fa.result()
+    rg, cases = fg.result()
+    pool.shutdown()
+    abad = re.findall(r'<<\s*"@BAD",\s*(\d+)', ra.out)
+    ev.cov["appendix_vectors_evaluated"] = max(0, (ra.distinct - 1) // 2)
+    if ra.rc != 0 or abad or ra.distinct < 3:
+        ctx.note_inconclusive("ref/Bign.tla fails its appendix vectors %s (rc=%s): specification error" % (abad, ra.rc))
+        return
+    tlc_states += ra.distinct + rg.distinct
+    vlib.log("[C02] anchors ok (%.0fs), %d generated cases (%.0fs)" % (ra.wall, len(cases), rg.wall))
+    for a in pending:
+        ctx.violation(*a)
     # ---- (2) replay
     nrep = 0
     if vlib.tlc_infra_failed(rg) or not cases:
@@ -193,8 +250,9 @@ def run(ctx):
     else:
         cmds = ""
         for c in cases:
-            cmds += "x op=%s l=%d oid=%s H=%s d=%s tape=%s X=%s I=%s Q=%s token=%s t=%s\n" % (
-                c["op"], c["l"], hx(c["oid"]), hx(c["H"]), hx(c["d"]), hx(c["tape"]), hx(c["X"]), hx(c["I"]), hx(c["Q"]), hx(c["token"]), hx(c["t"]))
+            cmds += "x op=%s l=%d oid=%s H=%s d=%s tape=%s X=%s I=%s Q=%s token=%s t=%s H0=%s e=%s tape2=%s\n" % (
+                c["op"], c["l"], hx(c["oid"]), hx(c["H"]), hx(c["d"]), hx(c["tape"]), hx(c["X"]), hx(c["I"]), hx(c["Q"]), hx(c["token"]), hx(c["t"]),
+                hx(c["H0"]), hx(c["e"]), hx(c["tape2"]))
         for b, drv in drvs.items():
             rc, out, err = vlib.run_harness(drv, ["exec"], stdin=cmds.encode(), env={"VERIF_FORK": "0"}, timeout=600)
             got = [json.loads(l) for l in out.splitlines() if l.strip().endswith("}")]
@@ -214,7 +272,18 @@ def run(ctx):
                     okv = okv and x["token"] == c["token"]
                 elif c["op"] == "unwrap":
                     okv = okv and x["key"] == c["key"]
-                if not okv:
+                elif c["op"] == "idsign":
+                    okv = okv and x["sig"] == c["sig"]
+                elif c["op"] == "idchain":
+                    okv = (x["rcPub"] == "OK" and x["Q"] == c["Q"] and x["rcSign"] == "OK" and x["casig"] == c["casig"] and x["rcExtract"] == "OK"
+                           and x["e"] == c["e"] and x["R"] == c["R"] and x["rcIdSign"] == "OK" and x["sig"] == c["sig"]
+                           and (x["rcIdVerify"] == "OK") == (c["verdict"] == "ok") and c["verdict"] == "ok")
+                if not okv and c["op"] in ("idsign", "idchain"):
+                    e = num(c["e"])
+                    ctx.violation("%s:l=%d:gen:e=%s" % ("bignIdSign" if c["op"] == "idsign" else "ibs-chain", c["l"], e if e < 2 else "q-1" if e == Q[c["l"]] - 1 else "other"),
+                                  "%s build differs from the outputs the specification predicts for a generated %s case (identity key e = %s)"
+                                  % (b, c["op"], e if e < 2 else hex(e)), {"case": c, "real": x})
+                elif not okv:
                     x["tape"] = c["tape"]
                     x["cls"] = "H=%s" % ("q" if num(c["H"]) == Q[c["l"]] else "q+1" if num(c["H"]) == Q[c["l"]] + 1 else "2^2l-1" if c["H"] and min(c["H"]) == 255 else "other")
                     k = key_of(x) if c["op"] in ("keygen", "sign", "sign2") else "replay:%s" % c["op"]
@@ -225,6 +294,12 @@ def run(ctx):
     classes = set((row["op"], row.get("l"), row.get("cls")) for row in lines) | set(("gen", c["op"], i) for i, c in enumerate(cases))
     ev.cov["lines_judged"] = n
     ev.cov["lines_recomputed_in_full"] = sum(1 for row in lines if row.get("lvl") == 1)
+    ibs = [row for row in lines if row["op"] in ("idextract", "idsign", "idsign2", "idverify")]
+    ev.cov["ibs_lines_judged"] = len(ibs)
+    ev.cov["ibs_lines_recomputed_in_full"] = sum(1 for row in ibs if row.get("lvl") == 1)
+    ev.cov["ibs_boundary_identity_keys"] = sorted(set("l=%d:e=%s" % (row["l"], "0" if num(row["e"]) == 0 else "1" if num(row["e"]) == 1 else "q-1")
+                                                      for row in ibs if row["op"] == "idextract" and row["rc"] == "OK" and "chain:e=" in row["cls"]
+                                                      and num(row["e"]) in (0, 1, Q[row["l"]] - 1)))
     ev.cov["aborts_in_assert_build"] = len(aborts)
     ev.cov["builds"] = list(drvs)
     ev.cov["tlc_states"] = tlc_states
@@ -234,12 +309,21 @@ def run(ctx):
     ev.cov["rule"] = ("structure enumerated: level x operation x class (private key {1, 2, q-1, 16-bit, seeded} x hash {0, 1, q-1, q, q+1, 2^2l-1, seeded} x "
                       "nonce {1, 2, 16-bit, 2^l-1, 2^l, 2^l+seeded, q-1, seeded}; generator tapes with samples 0, q, q+1, (q+p)/2, p-1, 2^2l-1 before "
                       "the first valid one, 3 / 64 / 65 / all rejected; 20 verifier alterations and 15 token alterations classified by the specification; "
-                      "key lengths straddling 16; DH lengths straddling l/2); data octets seeded; distinct = distinct (operation, level, class) tuples, "
+                      "key lengths straddling 16; DH lengths straddling l/2; appendix B: call chains sign -> extract -> id-sign / id-sign2 -> id-verify with the "
+                      "extracted identity key {0, 1, q-1 (constructed, every level), 16-bit, generic} x H0 {seeded, 2^2l-1}, 22 extractor and 28 verifier "
+                      "alterations (single bits, +-q, s1 in {0, q, s1 + q, 2^2l-1}, other / negated / swapped / off-curve / out-of-field keys, identifiers), "
+                      "id-signing with e in {0, 1, q-1, q, q+1, 2^2l-1, seeded} x H in {0, q, 2^2l-1, seeded} x nonce tapes x identifiers); "
+                      "data octets seeded; distinct = distinct (operation, level, class) tuples, "
                       "each involving >= 1 evaluation of the standard's equations by TLC")
     for row in [x for x in lines if x["op"] == "sign" and x.get("lvl") == 1][:1] + [x for x in lines if x["op"] == "keygen"][7:8] + \
-            [x for x in lines if x["op"] == "verify" and x.get("lvl") == 1][:1] + [x for x in lines if x["op"] == "unwrap"][2:3]:
+            [x for x in lines if x["op"] == "verify" and x.get("lvl") == 1][:1] + [x for x in lines if x["op"] == "unwrap"][2:3] + \
+            [x for x in lines if x["op"] == "idextract" and x.get("lvl") == 1 and x.get("rc") == "OK" and num(x["e"]) == 0][:1] + \
+            [x for x in lines if x["op"] == "idsign" and x.get("lvl") == 1 and x.get("rc") == "OK" and num(x["e"]) == 0][:1]:
         ev.sample(brief(row))
-    ev.assume("STB 34.101.45 as transcribed in spec/ref/Bign.tla, anchored by the appendix tables G.1-G.7 evaluated by TLC in this run")
+    ev.assume("STB 34.101.45 as transcribed in spec/ref/Bign.tla, anchored by the appendix tables G.1-G.10 evaluated by TLC in this run")
+    ev.assume("appendix B: the identity private key ranges over {0, .., q-1} (B.2.3 defines e = (S1 + H0) mod q with no exclusion; bign.h asks only "
+              "that it comes from bignIdExtract); the identity public key must be a point of the curve; lines with lvl = 0 are judged by the "
+              "error class, e = (S1 + H0) mod q, the signing equation of B.2.4 and the agreement extract <-> verify, sign -> id-verify")
     ev.assume("the number of sampling attempts before ERR_BAD_RNG is B_PER_IMPOSSIBLE + 1 = 65 (defs.h / zz.h); the deterministic nonce is "
               "modelled for its first candidate (a second round has probability < 2^-%d)" % 120)
     vlib.log("[C02] done %.0fs" % (time.time() - t0))
